@@ -12,7 +12,7 @@ namespace Fatchoy.Conn
 def Action.internal : Action → Bool
   | .snd _ => true | .cls _ => true | .win => true
   | .wRecv => true | .wDone => true | .wWrite _ => true | .wFlush => true | .wWgDone => true
-  | .rFrame => true | .rErr _ => true | .rNil => true | .rPush => true | .rDrop => true | .rCheck => true
+  | .rArm => true | .rChk => true | .rFrame => true | .rErr _ => true | .rNil => true | .rPush => true | .rDrop => true | .rCheck => true
   | .rClose => true | .rWgDone => true
   | _ => false
 
@@ -114,6 +114,13 @@ theorem inv6_step {cfg : Cfg} {s s' : State} (a : Action) (h1 : Inv1 s) (h : Inv
   case wWrite => unfold stepWWrite writeOne at hs; inv6_other h hs
   case wFlush => unfold stepWFlush at hs; inv6_other h hs
   case wWgDone => unfold stepWWgDone at hs; inv6_other h hs
+  case rArm => unfold stepRArm at hs; inv6_mv hs
+  case rChk =>
+    unfold stepRChk at hs
+    split at hs
+    · injection hs with hs; subst hs
+      exact inv6_move (fun e c hc => by simp at hc; split at hc <;> simp at hc; exact hc.2.symm)
+    · simp at hs
   case rFrame => unfold stepRFrame at hs; inv6_mv hs
   case rErr =>
     unfold stepRErr at hs
@@ -197,7 +204,7 @@ theorem inv7_step {cfg : Cfg} {s s' : State} (a : Action) (h : Inv7 s) (hs : ste
     | (unfold stepStart at hs) | (unfold stepSendCall at hs) | (unfold stepCloseCall at hs) | (unfold stepPeerSend at hs)
     | (unfold stepRTimeout at hs) | (unfold stepSnd at hs) | (unfold stepWRecv at hs) | (unfold stepWDone at hs)
     | (unfold stepWWrite writeOne at hs)
-    | (unfold stepWFlush at hs) | (unfold stepWWgDone at hs) | (unfold stepRFrame at hs) | (unfold stepRErr at hs)
+    | (unfold stepWFlush at hs) | (unfold stepWWgDone at hs) | (unfold stepRArm at hs) | (unfold stepRChk at hs) | (unfold stepRFrame at hs) | (unfold stepRErr at hs)
     | (unfold stepRNil at hs) | (unfold stepRPush at hs) | (unfold stepRDrop at hs) | (unfold stepRCheck at hs)
     | (unfold stepRWgDone at hs) | (unfold stepInbPop at hs) | (unfold stepErrPop at hs) | skip)
   all_goals (repeat' (split at hs))
@@ -224,6 +231,106 @@ theorem inv7_reachable {cfg : Cfg} {s : State} (h : Reachable cfg s) : Inv7 s :=
   induction h with
   | init => intro h0; simp [init] at h0
   | step a _ hs ih => exact inv7_step a ih hs
+
+/-- the graceful Close's deadline is not lost: once it has set the read deadline into the past, a reader that is
+  (still or again) inside its read has that deadline — it arms its own deadline BEFORE it looks at `done`, and the
+  closer closes `done` BEFORE it sets the deadline -/
+def pastDl : WinPc → Bool
+  | .unlock => false | .closeRead => false | .closeDone => false | .setDl => false | .dead => false | _ => true
+
+def Inv8 (s : State) : Prop :=
+  ∀ w, s.win = some w → w.graceful = true → pastDl w.pc = true → s.r = .reading → s.rdl = true
+
+theorem inv8_elect {s s' : State} {g : Bool} {e : Err} {c c' : CPc} (h1 : Inv1 s) (h : Inv8 s)
+    (hs : electStep s g e c = some (s', c')) : Inv8 s' ∧ s'.r = s.r := by
+  unfold electStep at hs
+  cases c <;> simp only at hs
+  all_goals (repeat' (split at hs))
+  all_goals (first
+    | (simp only [Option.some.injEq, Prod.mk.injEq] at hs; obtain ⟨rfl, _⟩ := hs; exact ⟨h, rfl⟩)
+    | (simp only [Option.some.injEq, Prod.mk.injEq] at hs; obtain ⟨rfl, _⟩ := hs
+       refine ⟨?_, rfl⟩
+       intro w hw hg hp hr
+       simp at hw; subst hw; simp [pastDl] at hp)
+    | (simp at hs))
+
+theorem inv8_step {cfg : Cfg} {s s' : State} (a : Action) (h1 : Inv1 s) (h : Inv8 s)
+    (hs : step cfg s a = some s') : Inv8 s' := by
+  cases a <;> simp only [step] at hs
+  case cls =>
+    unfold stepCls at hs
+    split at hs
+    · simp at hs
+    · split at hs
+      · next he => injection hs with hs; subst hs; exact ((inv8_elect h1 h he).1 : Inv8 _)
+      · simp at hs
+  case rClose =>
+    unfold stepRClose at hs
+    split at hs
+    · next e c hr0 =>
+      split at hs
+      · next s1 c1 he =>
+        injection hs with hs; subst hs
+        intro w hw hg hp hr
+        cases c1 <;> simp at hr
+      · simp at hs
+    · simp at hs
+  case win =>
+    unfold stepWin at hs
+    cases hw : s.win with
+    | none => simp [hw] at hs
+    | some w =>
+      have h0 := h w hw
+      simp only [hw] at hs
+      cases hp : w.pc <;> simp only [hp, setWin] at hs <;> simp only [hp, pastDl] at h0
+      all_goals (repeat' (split at hs))
+      all_goals (first
+        | (injection hs with hs; subst hs
+           intro w' hw' hg' hp' hr'
+           simp at hw'; subst hw'
+           simp_all [pastDl]; done)
+        | (subst hs
+           intro w' hw' hg' hp' hr'
+           simp at hw'; subst hw'
+           simp_all [pastDl]; done)
+        | (simp at hs; done))
+  case rChk =>
+    unfold stepRChk at hs
+    split at hs
+    · injection hs with hs; subst hs
+      intro w hw hg hp hr
+      by_cases hd : s.done = true
+      · simp [hd] at hr
+      · exfalso
+        have := (h1.some_ w hw).2.2.2.1
+        apply hd; rw [this]
+        cases hpc : w.pc <;> simp [hpc, pastDl] at hp <;> simp [phaseOf]
+    · simp at hs
+  case rCheck =>
+    unfold stepRCheck at hs
+    split at hs
+    · injection hs with hs; subst hs
+      intro w hw hg hp hr
+      simp at hr; split at hr <;> simp at hr
+    · simp at hs
+  all_goals (first
+    | (unfold stepStart at hs) | (unfold stepSendCall at hs) | (unfold stepCloseCall at hs) | (unfold stepPeerSend at hs)
+    | (unfold stepRTimeout at hs) | (unfold stepSnd at hs) | (unfold stepWRecv at hs) | (unfold stepWDone at hs)
+    | (unfold stepWWrite writeOne at hs)
+    | (unfold stepWFlush at hs) | (unfold stepWWgDone at hs) | (unfold stepRArm at hs) | (unfold stepRFrame at hs)
+    | (unfold stepRErr at hs)
+    | (unfold stepRNil at hs) | (unfold stepRPush at hs) | (unfold stepRDrop at hs)
+    | (unfold stepRWgDone at hs) | (unfold stepInbPop at hs) | (unfold stepErrPop at hs) | skip)
+  all_goals (repeat' (split at hs))
+  all_goals (first
+    | (injection hs with hs; subst hs; exact h)
+    | (injection hs with hs; subst hs; intro w hw hg hp hr; simp at hr; done)
+    | (simp at hs))
+
+theorem inv8_reachable {cfg : Cfg} {s : State} (h : Reachable cfg s) : Inv8 s := by
+  induction h with
+  | init => intro w hw; simp [init] at hw
+  | step a hr hs ih => exact inv8_step a (inv1_reachable hr) ih hs
 
 /-! ### enabledness -/
 
@@ -260,16 +367,9 @@ theorem win_enabled {cfg : Cfg} {s : State} {w : Winner} (hw : s.win = some w)
   unfold stepWin
   simp only [hw]
   cases hpc : w.pc <;> simp only [hpc] at hp ⊢
-  all_goals (first | rfl | skip)
-  · split <;> rfl
-  · split
-    · rfl
-    · split <;> rfl
-  · simp [hp.2.2]
-  · split <;> rfl
-  · split <;> rfl
-  · simp at hp
-  · simp at hp
+  all_goals (first | rfl | (simp at hp; done) | skip)
+  all_goals (repeat' split)
+  all_goals (first | rfl | (simp_all; done))
 
 theorem wlocked_enabled (cfg : Cfg) {s : State} (h1 : Inv1 s) (h : wlocked s = true) :
     ∃ a, a.internal = true ∧ (step cfg s a).isSome = true := by
@@ -317,7 +417,7 @@ theorem write_enabled (cfg : Cfg) {s : State} (h7 : Inv7 s) {p : Pkt}
       have := h7 hb
       rcases hw with hw | hw <;> simp [step, stepWWrite, hw, writeOne, he, this]
 
-theorem pumps_enabled (cfg : Cfg) {s : State} (h1 : Inv1 s) (h6 : Inv6 s) (h7 : Inv7 s) {w : Winner} (hw : s.win = some w)
+theorem pumps_enabled (cfg : Cfg) {s : State} (h1 : Inv1 s) (h6 : Inv6 s) (h7 : Inv7 s) (h8 : Inv8 s) {w : Winner} (hw : s.win = some w)
     (hpc : w.pc = .wait) (hwg : s.wg ≠ 0) : ∃ a, a.internal = true ∧ (step cfg s a).isSome = true := by
   have hp := h1.some_ w hw
   rw [hpc] at hp
@@ -333,9 +433,15 @@ theorem pumps_enabled (cfg : Cfg) {s : State} (h1 : Inv1 s) (h6 : Inv6 s) (h7 : 
     cases hr : s.r with
     | idle => exact absurd hr hri
     | exited => exact absurd hr hrx
+    | arm => exact ⟨.rArm, rfl, by simp [step, stepRArm, hr, hcl]⟩
+    | chk => exact ⟨.rChk, rfl, by simp [step, stepRChk, hr]⟩
     | reading =>
       refine ⟨.rErr false, rfl, ?_⟩
-      simp [step, stepRErr, hr, hcl, readFails, hrs]
+      cases hg : w.graceful with
+      | false => simp [step, stepRErr, hr, readFails, hrs, hg]
+      | true =>
+        have := h8 w hw hg (by rw [hpc]; rfl) hr
+        simp [step, stepRErr, hr, readFails, this]
     | deliver p =>
       refine ⟨.rDrop, rfl, ?_⟩
       simp [step, stepRDrop, hr, hdn]
@@ -388,11 +494,11 @@ def Unfinished (s : State) : Prop :=
   (∃ x ∈ s.snd, ∀ r, x ≠ .ret r) ∨ (∃ c ∈ s.cls, ∀ b, c.pc ≠ .returned b) ∨
   (∃ w, s.win = some w ∧ w.pc ≠ .finished)
 
-theorem winner_enabled (cfg : Cfg) {s : State} (h1 : Inv1 s) (h6 : Inv6 s) (h7 : Inv7 s) {w : Winner} (hw : s.win = some w)
+theorem winner_enabled (cfg : Cfg) {s : State} (h1 : Inv1 s) (h6 : Inv6 s) (h7 : Inv7 s) (h8 : Inv8 s) {w : Winner} (hw : s.win = some w)
     (hf : w.pc ≠ .finished) : ∃ a, a.internal = true ∧ (step cfg s a).isSome = true := by
-  have hd := (h1.some_ w hw).1
+  have hd := (h1.some_ w hw).1.1
   by_cases hwait : w.pc = .wait ∧ s.wg ≠ 0
-  · exact pumps_enabled cfg h1 h6 h7 hw hwait.1 hwait.2
+  · exact pumps_enabled cfg h1 h6 h7 h8 hw hwait.1 hwait.2
   · refine ⟨.win, rfl, win_enabled hw ⟨hf, hd, ?_⟩⟩
     intro hpw
     by_cases h0 : s.wg = 0
@@ -405,6 +511,7 @@ theorem no_stuck (cfg : Cfg) {s : State} (h : Reachable cfg s) (hu : Unfinished 
   have h5 := inv5_reachable h
   have h6 := inv6_reachable h
   have h7 := inv7_reachable h
+  have h8 := inv8_reachable h
   rcases hu with ⟨x, hx, hnr⟩ | ⟨c, hc, hnr⟩ | ⟨w, hw, hf⟩
   · obtain ⟨i, hi⟩ := List.getElem?_of_mem hx
     cases x with
@@ -435,8 +542,8 @@ theorem no_stuck (cfg : Cfg) {s : State} (h : Reachable cfg s) (hu : Unfinished 
           intro hf
           apply hret
           simp [Winner.returnable, hf]
-        exact winner_enabled cfg h1 h6 h7 hw hf
+        exact winner_enabled cfg h1 h6 h7 h8 hw hf
     | returned b => exact absurd rfl (hnr b)
-  · exact winner_enabled cfg h1 h6 h7 hw hf
+  · exact winner_enabled cfg h1 h6 h7 h8 hw hf
 
 end Fatchoy.Conn
